@@ -88,6 +88,10 @@ Out13 == {<<"success", "none">>, <<"success", "det">>, <<"error", "exc">>, <<"er
           <<"failure", "exc">>, <<"failure", "det">>, <<"skip", "reason">>, <<"skip", "det">>, <<"skip", "detr">>,
           <<"xfail", "exc">>, <<"xfail", "det">>, <<"uxsuccess", "none">>, <<"uxsuccess", "det">>}
 Out5 == {<<"success", "none">>, <<"error", "exc">>, <<"failure", "det">>, <<"skip", "reason">>, <<"uxsuccess", "none">>}
+\* supplied-but-falsy arguments: the empty reason string, the empty details dict (plus one ordinary outcome to mix with)
+OutFalsy == {<<"skip", "reason0">>, <<"success", "det0">>, <<"error", "det0">>, <<"failure", "det0">>, <<"skip", "det0">>,
+             <<"xfail", "det0">>, <<"uxsuccess", "det0">>, <<"failure", "exc">>}
+Out20 == Out13 \cup OutFalsy
 Out6 == {<<"success", "none">>, <<"error", "exc">>, <<"failure", "det">>, <<"skip", "reason">>,
          <<"xfail", "det">>, <<"uxsuccess", "none">>}
 Out3 == {<<"success", "none">>, <<"failure", "det">>, <<"uxsuccess", "det">>}
